@@ -1,5 +1,6 @@
 <%!
     from floogen.model.routing import XYDirections, RouteAlgo
+    from floogen.utils import clog2
 %>\
 <% def camelcase(s):
   return ''.join(x.capitalize() or '_' for x in s.split('_'))
@@ -9,7 +10,7 @@
 <% rsp_type = next(d for d in router.incoming if d is not None).rsp_type %>\
 <% wide_type = next(d for d in router.incoming if d is not None).wide_type %>\
 % if router.route_algo == RouteAlgo.ID:
-${router.table.render()}
+${router.table.render(idx_type=f"logic[{max(clog2(len(router.outgoing)), 1)-1}:0]")}
 % endif
 
 ${req_type} [${len(router.incoming)-1}:0] ${router.name}_req_in;
